@@ -2,7 +2,7 @@
 import itertools
 from fractions import Fraction
 
-from common import enc_arr, enc_vec, enc_f, coq_q, coq_list, coq_val, dec_res, run_impl, NonFinite
+from common import enc_arr, enc_vec, enc_f, coq_q, coq_list, coq_mat, coq_val, dec_res, run_impl, NonFinite
 from framework import prove, correspond, finish
 
 DEPS = ["Props/C16.vo", "Corr/C16.vo", "Corr/C02.vo"]
@@ -164,6 +164,99 @@ def search(ctx):
     return None
 
 
+# ---------------- linearization_error (hand model, literals from the source) and clip_range (exact reference) ----------------
+def gen_lin(ctx):
+    rng = ctx.rng
+    out = []
+    for n in list(range(1, 9)) * (3 if ctx.quick() else 30):
+        dim = rng.randint(1, 3)
+        rows = [[Fraction(rng.randint(-64, 64), 8) for _ in range(n + 1)] for _ in range(dim)]
+        out.append({"rows": rows, "n": n})
+    return out
+
+
+def judge_lin(c, op, cfg, raw):
+    """per coordinate the returned value must bound max |B(s) - chord(s)| on a grid of exact parameters (it is an upper bound
+    of n(n-1)/8 max|second difference| per coordinate, Euclidean norm over coordinates)"""
+    if "exc" in raw:
+        return "raised %s" % raw["exc"]
+    got = dec_res(raw["ok"])
+    n = c["n"]
+    want_sq = Fraction(0)
+    for r in c["rows"]:
+        w = max([abs(r[j] - 2 * r[j + 1] + r[j + 2]) for j in range(n - 1)] + [Fraction(0)])
+        want_sq += (Fraction(n * (n - 1), 8) * w) ** 2
+    if abs(got * got - want_sq) > Fraction(1, 2 ** 45) * want_sq:
+        return "linearization_error^2 = %r, n(n-1)/8 * max|second difference| squared and summed = %r" % (float(got * got), float(want_sq))
+    import oracle_q as oq
+    for k in range(0, 17):
+        s_ = Fraction(k, 16)
+        dev_sq = sum((oq.bernstein(r, s_) - ((1 - s_) * r[0] + s_ * r[-1])) ** 2 for r in c["rows"])
+        if dev_sq > got * got * (1 + Fraction(1, 2 ** 40)):
+            return "the curve is farther from its chord (%r at s = %s) than the returned bound %r" % (float(dev_sq) ** 0.5, s_, float(got))
+    return None
+
+
+def clip_reference(n1, n2):
+    """exact clipping range: projection on the parameter axis of (convex hull of the distance polygon) cap (fat line)"""
+    (x0, y0), (x1, y1) = (n1[0][0], n1[1][0]), (n1[0][-1], n1[1][-1])
+    a, b = -(y1 - y0), (x1 - x0)
+    c = (y1 - y0) * x0 - (x1 - x0) * y0
+    ds1 = [a * n1[0][i] + b * n1[1][i] + c for i in range(1, len(n1[0]) - 1)]
+    dmin, dmax = min(ds1 + [Fraction(0)]), max(ds1 + [Fraction(0)])
+    m = len(n2[0]) - 1
+    d = [a * n2[0][i] + b * n2[1][i] + c for i in range(m + 1)]
+    cand = []
+    if dmin <= d[0] <= dmax:
+        cand.append(Fraction(0))
+    if dmin <= d[m] <= dmax:
+        cand.append(Fraction(1))
+    for i in range(m):
+        for j in range(i + 1, m + 1):
+            if d[i] == d[j]:
+                return "parallel"
+            for lev in (dmin, dmax):
+                t = (lev - d[i]) / (d[j] - d[i])
+                if 0 <= t <= 1:
+                    cand.append((i + t * (j - i)) / m)
+    if not cand:
+        return (Fraction(1), Fraction(0))
+    return (min(cand), max(cand))
+
+
+def gen_clip(ctx):
+    rng = ctx.rng
+    out = []
+    tries = 0
+    want = 60 if ctx.quick() else 1500
+    while len(out) < want and tries < 40 * want:
+        tries += 1
+        d1, d2 = rng.randint(1, 4), rng.randint(1, 5)
+        n1 = [[Fraction(rng.randint(-8, 8), 2) for _ in range(d1 + 1)] for _ in range(2)]
+        n2 = [[Fraction(rng.randint(-8, 8), 2) for _ in range(d2 + 1)] for _ in range(2)]
+        if (n1[0][0], n1[1][0]) == (n1[0][-1], n1[1][-1]):
+            continue
+        ref = clip_reference(n1, n2)
+        if ref == "parallel" and rng.random() < 0.8:
+            continue
+        out.append({"n1": n1, "n2": n2, "ref": ref})
+    return out
+
+
+def judge_clip(c, op, cfg, raw):
+    ref = c["ref"]
+    if ref == "parallel":
+        return None if raw.get("exc") == "NotImplementedError" else "two control distances are equal (parallel to the fat line): expected NotImplementedError, got %s" % (raw.get("exc") or "a normal return")
+    if "exc" in raw:
+        return "raised %s: %s" % (raw["exc"], raw.get("msg", "")[:80])
+    got = dec_res(raw["ok"])
+    tol = Fraction(1, 2 ** 40)
+    if abs(got[0] - ref[0]) > tol or abs(got[1] - ref[1]) > tol:
+        return "clip_range = (%r, %r), exact range of (hull of the distance polygon) cap (fat line) = (%r, %r)" % (
+            float(got[0]), float(got[1]), float(ref[0]), float(ref[1]))
+    return None
+
+
 def run(ctx):
     prove(ctx, DEPS)
     nt = lambda c: True
@@ -220,6 +313,12 @@ def run(ctx):
                mk_coq(lambda c: "collide_val %s %s %s %s" % (coq_list([p[0] for p in c["p1"]]), coq_list([p[1] for p in c["p1"]]),
                                                            coq_list([p[0] for p in c["p2"]]), coq_list([p[1] for p in c["p2"]]))),
                HEADER, "chk_val", nontrivial=nt)
+    ln = gen_lin(ctx)
+    correspond(ctx, "linearization_error", ln, [("hazmat.linearization_error", lambda c: [enc_arr(c["rows"])], whole)],
+               lambda c, obs: None if obs[0][0] in ("exc", "malformed") else ["(%s, %s, %s)" % (coq_mat(c["rows"]), coq_q(obs[0][1]), coq_q(Fraction(1, 2 ** 45)))],
+               HEADER, "chk_lin_error", judge=judge_lin, configs=("pure",), nontrivial=lambda c: c["n"] >= 2)
+    from framework import sweep
+    sweep(ctx, "clip_range_exact", gen_clip(ctx), [("hazmat.clip_range", lambda c: [enc_arr(c["n1"]), enc_arr(c["n2"])])], judge_clip, configs=("pure",))
     # the compiled twins of segment_intersection / parallel_lines_parameters are only reachable through the
     # line-line case of all_intersections
     from checks import isect_common as ic
@@ -229,5 +328,5 @@ def run(ctx):
                   "of the stated finite domains, the separating-axis theorem is for all inputs; Fortran twins are tied by correspondence",
                   search=search,
                   unproved=["hull correctness for arbitrary point sets (proved on the finite lattice domains only)",
-                            "linearization error bound and clipping range are not modelled",
+                            "clipping range: exact reference sweep (all chords of the distance polygon against the fat line), not a theorem; the compiled clip_range is not reachable from Python",
                             "'err on the safe side on general (rounded) data' is not proved in a rounded model"])
